@@ -257,14 +257,20 @@ def _norm_result(r, dom):
 
 
 def _apply_mod(c, op, dom, impl):
+    from ..keys import HOOK
     mod = dom.mod
     fn = getattr(mod, op[1] + ("Py" if impl == "py" else ""))
-    if op[1] == "multiunion":
-        args = [[_build_operand(s, c, dom, impl) for s in op[2]]]
-    else:
-        args = [_build_operand(s, c, dom, impl) for s in op[2]]
-        if len(op) > 3 and op[3]:
-            args += list(op[3])
+    saved = HOOK.enabled
+    HOOK.enabled = False        # operands are built without faults
+    try:
+        if op[1] == "multiunion":
+            args = [[_build_operand(s, c, dom, impl) for s in op[2]]]
+        else:
+            args = [_build_operand(s, c, dom, impl) for s in op[2]]
+            if len(op) > 3 and op[3]:
+                args += list(op[3])
+    finally:
+        HOOK.enabled = saved
     try:
         return ("ok", _norm_result(fn(*args), dom))
     except Exception as e:
